@@ -387,9 +387,11 @@ def xml_writer_fields(fb, classes):
                             w = WField(m.group(2), f, e.node, const=const)
                             w.value = rest.split('"', 1)[0] if const and '"' in rest else None
                             w.order = m.start()
+                            w.value_nodes = []
                             if not const:
                                 for v in nearest_after(f, e, evs, lambda x: x.kind in ('lit', 'param', 'call') and x is not e and _names_something(fb, x, summaries), is_value):
                                     w.getters |= entity_accessors(f, v.node)
+                                    w.value_nodes.append((f, v.node))
                             fields.append(w)
             elif e.kind == 'call':
                 c = f.nodes[e.node]
@@ -1197,3 +1199,83 @@ def emptiness_guards(fb, fn, nid):
                     if sat == [0]:
                         out.add(nm)
     return out
+
+
+# ------------------------------------------------------------------------------------------------ formatters / strict parsers
+
+def may_return_empty_string(fb, g):
+    """Can the std::string-returning function g return a default-constructed (empty) string: it returns a local that was
+    constructed without arguments and some path to the return never touches that local."""
+    from .flow import path_search
+    if not g.has_cfg:
+        return None
+    for r in g.all_nodes():
+        if r.get('k') != 'return' or 'sub' not in r:
+            continue
+        rv = g.root_var(r['sub'])
+        if rv is None or rv[0] != 'var':
+            continue
+        d = rv[1]
+        decl = None
+        for n in g.all_nodes():
+            if n.get('k') == 'decl':
+                for v in n['vars']:
+                    if v['d'] == d and v.get('tC', '').startswith('std::basic_string'):
+                        init = g.sn(v['init']) if isinstance(v.get('init'), int) else None
+                        if init is None or (init.get('k') == 'construct' and not init.get('args')):
+                            decl = n['id']
+        if decl is None:
+            continue
+        touch = set()
+        for n in g.all_nodes():
+            if n.get('k') == 'call' and n['id'] in g.positions():
+                if any(g.nodes[x].get('k') == 'var' and g.nodes[x].get('d') == d for x in g.subtree(n['id'])):
+                    touch.add(n['id'])
+        if path_search(g, decl, lambda x: x == r['id'], lambda x: x in touch) is not None:
+            return True
+    return False
+
+
+def strict_value_parsers(fb, rn, names=('osmium::detail::parse_timestamp',)):
+    """Does the reader hand the value of attribute rn, without testing it first, to a parser that throws on an empty string
+    (closure of the callee, depth 2)?  Returns the call site or None."""
+    fn = rn.fn
+    dv = getattr(rn, 'value_d', None)
+    if dv is None:
+        if len(fn.params) < 2:
+            return None
+        dv = fn.params[1]['d']
+
+    def reaches(g, depth):
+        for c in g.calls():
+            if c.get('q') in names:
+                return True
+            if depth < 2:
+                for h in fb.by_usr.get(c.get('u'), []):
+                    if h.has_cfg and h.file.find('/osmium/') >= 0 and reaches(h, depth + 1):
+                        return True
+                    break
+        return False
+    for n in fn.all_nodes():
+        if n.get('k') not in ('call', 'construct') or not n.get('args') or not n.get('u'):
+            continue
+        if not any((fn.root_var(a) or (None, None))[:2] == ('var', dv) for a in n['args']):
+            continue
+        pos_node = n['id']
+        x = pos_node
+        pm = fn.parent_map()
+        while x not in fn.positions() and x in pm:
+            x = pm[x]
+        gs = edge_guards(fn, x)
+        if not any(_guard_is(fn, c, s, rn.node, False) for (c, s, _b) in gs):
+            continue
+        # a test of the value itself (emptiness) makes the parser call conditional
+        if any(any(fn.nodes[y].get('k') == 'var' and fn.nodes[y].get('d') == dv for y in fn.subtree(c)) for (c, s, _b) in gs):
+            continue
+        if n.get('q') in names:
+            return fn.loc(n['id'])
+        for h in fb.by_usr.get(n['u'], []):
+            if h.has_cfg and reaches(h, 0):
+                return fn.loc(n['id'])
+            break
+    return None
